@@ -239,7 +239,7 @@ def run(chk: Check, tier: str, seed: int) -> None:
     recs = load_family(chk, "path", ["one", "names"] + (["list", "two"] if tier == "thorough" else []))
     recs += load_family(chk, "filter", ["cmp-self", "functions", "shapes1"])
     recs += load_family(chk, "ext", ["alias", "keys", "fake", "key", "ctx", "member", "regex", "undef"])
-    r = tlc("MC_Compound", c11.CFG.format(n=2 if tier == "quick" else 3), timeout=3000)
+    r = tlc("MC_Compound", c11.CFG.format(n=3), timeout=3000)
     chk.add_tlc(r)
     cinfo = [x for x in r.records if "docs" in x][0]
     for x in r.records:
